@@ -3,7 +3,7 @@ from . import common, diffcommon, mergecommon, c02
 
 LEVEL = 'other'
 
-KNOWN = {'wf:local_diff:custom@outputs': 'C11-bundled-decision-diffs', 'wf:remote_diff:custom@outputs': 'C11-bundled-decision-diffs'}
+KNOWN = {}
 
 
 def _json_job(pairs):
